@@ -958,3 +958,170 @@ Proof.
   - split; [split; exact I|split; exact I].
   - split; [split; exact I|split; exact I].
 Qed.
+
+(* ---- preservation of the coupling invariant ---- *)
+Lemma idle_phase a o : idle_op o = true -> app_ok a o -> a_phase a = Idle.
+Proof. destruct o; cbn; try discriminate; intros _ H; try exact H; exact (proj1 H). Qed.
+
+Lemma hist_obs_got a ot st ph ap :
+  a_got (with_obs a ot st ph ap) = true -> a_got a = true \/ snd ot <> [].
+Proof.
+  cbn. intros H. apply orb_true_iff in H. destruct H as [H|H]; [left; exact H|right].
+  destruct (snd ot); [discriminate|discriminate].
+Qed.
+
+(* a light ready moves the cursor only over committed, persisted entries *)
+Lemma glr_bounds rw n n' lr :
+  gen_light_ready n = Ok (n', lr) -> NLI rw n -> CsiOK n ->
+  max_apply_unpersisted_log_limit (nlog n) = 0 ->
+  rn_commit_since_index n <= committed (nlog n) ->
+  rn_commit_since_index n < u_offset (unst (nlog n)) ->
+  nlog n' = nlog n
+  /\ rn_commit_since_index n <= rn_commit_since_index n'
+  /\ rn_commit_since_index n' <= committed (nlog n)
+  /\ rn_commit_since_index n' < u_offset (unst (nlog n))
+  /\ (lr_committed_entries lr <> [] -> 1 <= committed (nlog n)).
+Proof.
+  intros H HI Hc Hl H1 H2. unfold CsiOK in Hc.
+  destruct (commit_since_monotone_light _ _ _ H) as (M & A & B).
+  split; [eapply gen_light_ready_log; exact H|]. split; [exact M|].
+  destruct (lr_committed_entries lr) as [|e t] eqn:E.
+  { rewrite (A eq_refl). splits; auto. congruence. }
+  destruct (B ltac:(discriminate)) as [B1 _]. rewrite B1.
+  destruct (handout_bound rw n n' lr HI Hc H) as (_ & _ & Hin & _).
+  destruct (Hin (List.last (lr_committed_entries lr) entry_default)) as (Hgt & Hle & Hp & _).
+  { apply last_In. rewrite E. discriminate. }
+  rewrite E in *. unfold nlog in *. rewrite Hl in Hp.
+  pose proof (ri_persisted rw _ HI) as [Hpo _].
+  splits; try lia.
+Qed.
+
+Lemma lrel_got Q l l' : lrel Q l l' -> 1 <= committed l -> 1 <= committed l'.
+Proof. intros [(_ & A & _) _] H. lia. Qed.
+
+(* (A) the calls that neither produce nor consume a Ready *)
+Lemma good_idle a n o n' ot :
+  Good a n -> idle_op o = true -> app_ok a o -> peer_ok o -> idx_margin n o ->
+  exec n o = Ok (n', ot) -> Good (with_obs a ot (a_store a) Idle (a_applied a)) n'.
+Proof.
+  intros G Hi Ha Hp Hm E.
+  assert (Hns : forall m, o <> OSetStore m) by (intros m ->; discriminate).
+  destruct (side_ok a n o G Ha Hp Hm Hns) as [W2 W3].
+  destruct (idle_exec_rel n o n' ot Hi E) as (R & Er & Emx & Ec & Eo).
+  destruct R as [(R1 & R2 & R3 & R4 & R5 & R6) R7].
+  pose proof (idle_phase a o Hi Ha) as Eph.
+  pose proof (Good_NLI a n G) as HI. pose proof (Good_CsiOK a n G) as Hc.
+  constructor; cbn [a_store a_phase a_hist a_applied a_got with_obs].
+  - eapply exec_good; [exact E|exact W2|exact (g_good a n G)].
+  - rewrite R1. exact (g_store a n G).
+  - eapply handout_exec; [exact (g_hist a n G)| |exact E].
+    eapply op_pre_node_op_pre; [exact HI|]. eapply op_pre_node2_node; eassumption.
+  - rewrite R7. exact (g_applied a n G).
+  - rewrite R7, Ec. exact (g_app_le a n G).
+  - rewrite Ec. pose proof (g_csi_commit a n G). lia.
+  - rewrite Ec. apply R5; [exact (g_csi_commit a n G)|exact (g_csi_stable a n G)].
+  - apply R6. exact (g_limit a n G).
+  - rewrite R1, Ec. exact (g_first a n G).
+  - intros s Hs. destruct (R4 s Hs) as [Ho|Hq]; [exact (g_snap_pos a n G s Ho)|].
+    destruct o; cbn [op_snap] in Hq; try contradiction. destruct Hq as [Ht ->].
+    cbn [peer_ok] in Hp. exact (proj1 (proj2 Hp Ht)).
+  - subst ot. cbn. rewrite orb_false_r. intros Hg. pose proof (g_got a n G Hg). lia.
+  - unfold recs_done. cbn [a_phase with_obs]. rewrite Er, R1. intros rr i t Hin Hs.
+    apply (g_recs a n G rr i t); [|exact Hs]. unfold recs_done. rewrite Eph. exact Hin.
+  - exact I.
+Qed.
+
+Lemma removelast_snoc {A} (l : list A) x : removelast (l ++ [x]) = l.
+Proof. apply removelast_last. Qed.
+
+(* (B) ready() *)
+Lemma good_ready a n n' rd ot :
+  Good a n -> a_phase a = Idle -> idx_margin n OReady ->
+  rn_ready n = Ok (n', rd) ->
+  ot = (if s_index (rd_snapshot rd) =? 0 then None else Some (s_index (rd_snapshot rd)),
+        lr_committed_entries (rd_light rd)) ->
+  Good (with_obs a ot (a_store a) (Writing rd (stage0 rd)) (a_applied a)) n'.
+Proof.
+  intros G Eph Hm H Eot.
+  assert (E : exec n OReady = Ok (n', ot)) by (cbn [exec]; rewrite H; cbn [bind fst snd]; rewrite Eot; reflexivity).
+  assert (Ha : app_ok a OReady) by exact Eph.
+  destruct (side_ok a n OReady G Ha I Hm ltac:(intros m C; discriminate)) as [W2 W3].
+  pose proof (Good_NLI a n G) as HI. pose proof (Good_CsiOK a n G) as Hc.
+  destruct (ready_entries_are_unstable _ _ _ H)
+    as (Eents & _ & _ & Emax & _ & _ & _ & _ & Esnap & (recs & Hrecs & _ & Erec) & _ & _ & Elog & _).
+  fold (nlog n') in Elog. fold (nlog n) in Elog, Eents, Esnap, Erec.
+  (* the cursor *)
+  destruct (rn_ready_inv _ _ _ H) as (recs0 & snap & csi & rec_snap & ms2 & n2 & light & _ & Hsnap & Hgl & Hn' & Hrd).
+  assert (Hcsi : csi = ready_since n).
+  { unfold ready_snap in Hsnap. unfold ready_since.
+    destruct (u_snapshot (unst (r_log (rn_raft n)))); [|inversion Hsnap; reflexivity].
+    destruct Hsnap as (_ & _ & E0). inversion E0; reflexivity. }
+  subst csi.
+  assert (Hrs1 : ready_since n <= committed (nlog n) /\ ready_since n < u_offset (unst (nlog n))
+                 /\ rn_commit_since_index n <= ready_since n).
+  { unfold ready_since. fold (nlog n). pose proof (ri_shape false _ HI) as Hsh. fold (nlog n) in Hsh.
+    destruct (u_snapshot (unst (nlog n))) as [s|] eqn:Es.
+    - destruct Hsh as [Ho Hs]. unfold ready_snap in Hsnap. fold (nlog n) in Hsnap. rewrite Es in Hsnap.
+      destruct Hsnap as (Hle & _). lia.
+    - splits; [exact (g_csi_commit a n G)|exact (g_csi_stable a n G)|lia]. }
+  destruct Hrs1 as (Hr1 & Hr2 & Hr3).
+  match type of Hgl with gen_light_ready ?nx = _ => set (na := nx) in * end.
+  assert (Hna : NLI false na) by exact HI.
+  assert (Hca : CsiOK na) by (unfold CsiOK; cbn; eapply ready_since_bound; eassumption).
+  destruct (glr_bounds false na n2 light Hgl Hna Hca (g_limit a n G) Hr1 Hr2) as (_ & B1 & B2 & B3 & B4).
+  change (nlog na) with (nlog n) in B2, B3, B4. change (rn_commit_since_index na) with (ready_since n) in B1.
+  assert (Ecsi : rn_commit_since_index n' = rn_commit_since_index n2) by (subst n'; reflexivity).
+  assert (Elight : rd_light rd = light) by (subst rd; reflexivity).
+  destruct (rn_ready_light _ _ _ H) as (oe & k & _ & _ & Hl2 & Hcs2 & _ & Hsn2 & _).
+  constructor; cbn [a_store a_phase a_hist a_applied a_got with_obs].
+  - eapply exec_good; [exact E|exact W2|exact (g_good a n G)].
+  - rewrite Elog. exact (g_store a n G).
+  - eapply handout_exec; [exact (g_hist a n G)| |exact E].
+    eapply op_pre_node_op_pre; [exact HI|]. eapply op_pre_node2_node; eassumption.
+  - rewrite Elog. exact (g_applied a n G).
+  - rewrite Elog, Ecsi. pose proof (g_app_le a n G). lia.
+  - rewrite Elog, Ecsi. exact B2.
+  - rewrite Elog, Ecsi. exact B3.
+  - rewrite Elog. exact (g_limit a n G).
+  - rewrite Elog, Ecsi. pose proof (g_first a n G). lia.
+  - rewrite Elog. exact (g_snap_pos a n G).
+  - rewrite Elog. intros Hg. apply orb_true_iff in Hg. destruct Hg as [Hg|Hg]; [exact (g_got a n G Hg)|].
+    apply B4. rewrite Eot in Hg. cbn [snd] in Hg. rewrite Elight in Hg.
+    destruct (lr_committed_entries light); discriminate.
+  - (* records *)
+    assert (Hsub : forall rr, In rr recs -> In rr (rn_records n)).
+    { intros rr Hin. unfold ready_records in Hrecs. destruct (_ && _); [destruct Hrecs as [_ ->]; destruct Hin|].
+      rewrite <- Hrecs. exact Hin. }
+    assert (Hold : forall rr i t, In rr recs -> rr_snapshot rr = Some (i, t) -> i < first_of (store (nlog n))).
+    { intros rr i t Hin Hs. apply (g_recs a n G rr i t); [|exact Hs]. unfold recs_done. rewrite Eph.
+      apply Hsub. exact Hin. }
+    rewrite Elog. unfold recs_done. cbn [a_phase with_obs]. rewrite Erec.
+    intros rr i t Hin Hs.
+    assert (Hcase : In rr recs \/ (stage0 rd <> WSnap /\ rr = List.last (recs ++ [mkRR (rn_max_number n + 1)
+              (rec_last_of (u_entries (unst (nlog n))))
+              (option_map (fun s => (s_index s, s_term s)) (u_snapshot (unst (nlog n))))
+              (hs_changed n && tv_changed n)]) rr_default)).
+    { destruct (stage0 rd) eqn:Est.
+      - left. rewrite removelast_snoc in Hin. exact Hin.
+      - apply in_app_or in Hin. destruct Hin as [Hin|[<-|[]]]; [left; exact Hin|right].
+        split; [discriminate|]. rewrite last_snoc. reflexivity.
+      - apply in_app_or in Hin. destruct Hin as [Hin|[<-|[]]]; [left; exact Hin|right].
+        split; [discriminate|]. rewrite last_snoc. reflexivity. }
+    destruct Hcase as [Hin'|[Hst ->]]; [eapply Hold; eassumption|].
+    exfalso. rewrite last_snoc in Hs. cbn [rr_snapshot] in Hs.
+    destruct (u_snapshot (unst (nlog n))) as [s|] eqn:Es; [|discriminate].
+    unfold stage0 in Hst. rewrite Esnap in Hst. pose proof (g_snap_pos a n G s Es).
+    destruct (s_index s =? 0) eqn:E0; [lia|congruence].
+  - (* phase *)
+    unfold phase_ok. cbn [a_phase with_obs]. rewrite Elog, Erec, last_snoc. cbn [rr_last_entry rr_snapshot].
+    splits; auto.
+    + destruct recs; discriminate.
+    + intros s Es. rewrite Hcs2. rewrite (Hsn2 ltac:(eauto)). cbn [csi_after].
+      unfold ready_since. fold (nlog n). rewrite Es. reflexivity.
+    + unfold stage0, stage1. rewrite Esnap, Eents.
+      destruct (u_snapshot (unst (nlog n))) as [s|] eqn:Es.
+      * pose proof (g_snap_pos a n G s Es). destruct (s_index s =? 0) eqn:E0; [lia|discriminate].
+      * cbn [snap_default s_index]. change (0 =? 0) with true. cbv iota.
+        assert (Hsw : snap_written (nlog n)) by (unfold snap_written; rewrite Es; exact I).
+        destruct (u_entries (unst (nlog n))) as [|e0 t0]; split; try exact Hsw; [congruence|discriminate].
+Qed.
